@@ -142,6 +142,8 @@ void make_values(const vf_type *T, int m, int n, uint64_t pat, int scheme, dmat 
             int kj = 0; for (int t = 0; t < j && t < m; t++) kj += vf_pat_bit(m, n, pat, t, j);
             v = (i < j) ? 0.5 / (kj ? kj : 1) : -0.5; if (scheme == 14) v = -v; break; }
         case 15: v = -(double)((i * 3 + j * 5 + 1) % 7 - 3); if (v == 0) v = -4; break;
+        case 17: { uint64_t h2 = (uint64_t)(i * 1315423911u + j * 2654435761u + 97u) * 0x9E3779B97F4A7C15ull; h2 ^= h2 >> 31;     /* generic magnitudes: no two entries tie */
+                   v = ((h2 & 1) ? -1.0 : 1.0) * (1.0 + (double)((h2 >> 8) % 9973) / 9973.0) * ldexp(1.0, (int)((h2 >> 32) % 7) - 3); break; }
         case 16: v = (double)((i * 3 + j * 5 + 1) % 7 - 3); if (v == 0) v = 4; v = ldexp(v, (T->id == TS || T->id == TC) ? -140 : -1065); break;   /* V1 scaled into the subnormal range: non-zero pivot candidates below the safe minimum */   /* V1 negated; complex: phases whose real and imaginary parts have opposite signs */
         default: v = 1.0;
         }
